@@ -12,6 +12,7 @@ import (
 	"os"
 
 	"mcrt"
+	"mcrt/xatomic"
 )
 
 var x, y int
@@ -144,6 +145,62 @@ var scenarios = map[string]func(){
 		mcrt.Select(false, cb) // only b is waited for; w's value stays in a's buffer, so w synchronises with nobody
 		x = 2
 	},
+}
+
+func init() {
+	// atomics: an operation on an atomic variable is ordered after every earlier operation on the same variable
+	scenarios["ok-atomic-publish"] = func() {
+		var f xatomic.Int32
+		done := mcrt.Make[int](2, "done")
+		mcrt.Go("a", func() { x = 1; f.Store(1); done.Send(1) })
+		mcrt.Go("b", func() {
+			if f.Load() == 1 {
+				x = 2
+			}
+			done.Send(2)
+		})
+		done.Recv()
+		done.Recv()
+	}
+	// expected RACE: the reader looks at another atomic variable, which orders nothing
+	scenarios["race-atomic-unrelated"] = func() {
+		var f, g xatomic.Int32
+		done := mcrt.Make[int](2, "done")
+		mcrt.Go("a", func() { x = 1; f.Store(1); done.Send(1) })
+		mcrt.Go("b", func() {
+			if g.Load() == 0 {
+				x = 2
+			}
+			done.Send(2)
+		})
+		done.Recv()
+		done.Recv()
+	}
+	scenarios["ok-cond-signal"] = func() {
+		var mu mcrt.Mutex
+		c := mcrt.NewCond(&mu)
+		ready := false
+		mcrt.Go("a", func() { x = 1; mu.Lock(); ready = true; mu.Unlock(); c.Signal() })
+		mu.Lock()
+		for !ready {
+			c.Wait()
+		}
+		mu.Unlock()
+		x = 2
+	}
+	scenarios["ok-pool-handoff"] = func() {
+		var p mcrt.Pool
+		done := mcrt.Make[int](2, "done")
+		mcrt.Go("a", func() { v := new(int); *v = 1; p.Put(v); done.Send(1) })
+		mcrt.Go("b", func() {
+			if v, ok := p.Get().(*int); ok {
+				*v = 2
+			}
+			done.Send(2)
+		})
+		done.Recv()
+		done.Recv()
+	}
 }
 
 func main() {
